@@ -207,8 +207,13 @@ func admitCase(h *vh.H, ci int, r vh.R) {
 		svcs = append(svcs, id)
 	}
 	// some unrelated raw entries (storage of the services) so that the pool is never trivially empty
+	rawKeys := map[types.StateKey]bool{} // one state key appears once in a state
 	for i := 0; i < r.IntN(4); i++ {
-		raw = append(raw, m.WrapEncodeDelta2KeyVal(svcs[r.IntN(len(svcs))], r.Bytes(1+r.IntN(5)), r.Bytes(r.IntN(20))))
+		kv := m.WrapEncodeDelta2KeyVal(svcs[r.IntN(len(svcs))], r.Bytes(1+r.IntN(5)), r.Bytes(r.IntN(20)))
+		if !rawKeys[kv.Key] {
+			rawKeys[kv.Key] = true
+			raw = append(raw, kv)
+		}
 	}
 	var pool []req
 	blobFamily := [][]byte{{}, {0}, {0, 0}, {1}, {1, 0}, {0xFF}, {0xFF, 0}}
